@@ -39,6 +39,9 @@ def run(ctx):
     r62(ctx, rep)
     r63(ctx, rep)
     r64_65(ctx, rep)
+    from .plumbing import check_plumbing
+    rep.rule('R6.6', 'view -> iterator plumbing of the merge joins: self.X reaches the parameter named X')
+    ctx.floor('plumbing_sites', check_plumbing(ctx, rep, 'R6.6', ['petl.transform.joins']), 15)
 
 
 # ------------------------------------------------------------------------- R6.1
@@ -179,9 +182,27 @@ SWAP = {'lkval': 'rkval', 'rkval': 'lkval', 'lrowgrp': 'rrowgrp', 'rrowgrp': 'lr
 FLIP = {ast.Lt: ast.Gt, ast.Gt: ast.Lt, ast.LtE: ast.GtE, ast.GtE: ast.LtE}
 
 
+def _swap_map(fn_node):
+    """l<->r pairs among the names of the function: lX <-> rX and leftX <-> rightX
+    whenever both exist (so a consistent renaming of the locals keeps the mirror)."""
+    names = set(n.id for n in ast.walk(fn_node) if isinstance(n, ast.Name))
+    names |= set(a.arg for n in ast.walk(fn_node) if isinstance(n, ast.arguments) for a in n.args)
+    m = {}
+    for nm in names:
+        if nm.startswith('left') and ('right' + nm[4:]) in names:
+            m[nm] = 'right' + nm[4:]
+            m['right' + nm[4:]] = nm
+        elif nm.startswith('l') and not nm.startswith('left') and ('r' + nm[1:]) in names:
+            m[nm] = 'r' + nm[1:]
+            m['r' + nm[1:]] = nm
+    return m
+
+
 class _Mirror(ast.NodeTransformer):
+    swap = SWAP
+
     def visit_Name(self, node):
-        return ast.copy_location(ast.Name(id=SWAP.get(node.id, node.id), ctx=node.ctx), node)
+        return ast.copy_location(ast.Name(id=self.swap.get(node.id, node.id), ctx=node.ctx), node)
 
     def visit_Call(self, node):
         self.generic_visit(node)
@@ -216,6 +237,7 @@ def _canon_block(stmts, mirror=False):
 
 def r63(ctx, rep):
     fn = ctx.project.need_fn('petl.transform.joins:iterjoin')
+    _Mirror.swap = _swap_map(fn.node) or SWAP
     # the merge loop: while True: if lkval < rkval: A elif lkval > rkval: B else: C
     loops = [n for n in own_nodes(fn.node) if isinstance(n, ast.While)]
     arms = None
